@@ -4,7 +4,7 @@
    canonicalises the same way).  All model definitions and all structural
    theorems are parametric in [FloatOps]; the executable instance (Flocq
    binary32, Base/F32Flocq.v) is only plugged in for extraction. *)
-From Coq Require Import ZArith List.
+From Coq Require Import ZArith List Bool.
 From PushModel Require Import Base.Sx.
 Open Scope Z_scope.
 
@@ -13,6 +13,11 @@ Definition f32 := Z.
 (* ids of the libm functions answered by the oracle table *)
 Definition FN_SIN := 1.  Definition FN_COS := 2.  Definition FN_TAN := 3.
 Definition FN_EXP := 4.  Definition FN_POWF := 5.
+
+(* wire decoding: every NaN bit pattern (any sign, any payload) is the canonical NaN for the model; the
+   implementation receives the raw pattern, so a dependence on NaN sign / payload shows up as a disagreement *)
+Definition f_canon (z : Z) : f32 :=
+  if ((z / 8388608) mod 256 =? 255) && negb (z mod 8388608 =? 0) then 2143289344 else z.
 
 Class FloatOps := {
   fadd : f32 -> f32 -> f32;
